@@ -74,6 +74,13 @@ def streams(tier, rng, P, only=None, cases=None):
         st, f = impl
         if st != "ok": return ("violation", "compile did not return normally: " + st) if st in ("panic", "hang", "abort") and not c.get("may_fail") else None
         if not m[0].startswith("ok holds=1"): return ("violation", "container predicate fails on the real bytes: " + m[0])
+        if c["key"].startswith("longmeta"):
+            # the End-of-Track at the end of each chunk is an event: read as a sequence of events (these sources write no verbatim bytes), every
+            # chunk must end exactly with it
+            from ..smfpy import smf_events
+            for k, evs in enumerate(smf_events(f["bin"]) or [[]]):
+                if not evs or evs[-1][1] != "meta" or evs[-1][2] != 0x2F or any(e[1] == "bad" for e in evs) or any(e[1] == "meta" and e[2] == 0x2F for e in evs[:-1]):
+                    return ("violation", "chunk %d does not read as events ending in End-of-Track (a text length of 128 or more written as one byte?)" % k)
         if c.get("expect_tb") is not None and int(f["tb"]) != c["expect_tb"]:
             return ("violation", "division %s but the time base in effect is %d" % (f["tb"], c["expect_tb"]))
         return None
